@@ -252,6 +252,8 @@ impl StateRestorer {
                     }
                 }
                 EventPayload::WorkerLost(worker_id, reason) => {
+                    // (the WorkerConnected record may have been pruned)
+                    self.max_worker_id = self.max_worker_id.max(worker_id.as_num());
                     if reason.is_failure() {
                         for job in self.jobs.values_mut() {
                             job.increase_crash_counters(worker_id);
